@@ -93,9 +93,15 @@ def get_mesh(name, lab, seed):
     return m
 
 
+MESHES_THOROUGH = {'tri': [('Tring8', 'plain'), ('T3comp', 'plain'), ('TL6', 'adaptive')], 'quad': [('Q4par', 'vswap')],
+                   'tet': [('K5', 'plain'), ('K6', 'plain')], 'line': [('L2c', 'plain')]}
+
+
 def items(tier, seed):
     its = []
     for kind, meshes in MESHES.items():
+        if tier == 'thorough':
+            meshes = meshes + MESHES_THOROUGH.get(kind, [])
         for (n, lab) in meshes:
             for en in PATCH[kind]:
                 its.append(('patch', n, lab, en))
